@@ -8,6 +8,9 @@ import (
 )
 
 type simnetLink = simnet.Link
+type simnetRule = simnet.Rule
+
+func simnetNewGate() *simnet.Gate { return simnet.NewGate() }
 
 func init() {
 	// W1: random fault schedules, static membership
@@ -24,6 +27,7 @@ func init() {
 			Torn:       x.P.Bool("torn"),
 			CrashBias:  x.P.Bool("crashbias"),
 			Bounce:     x.P.Bool("bounce"),
+			Hold:       x.P.Bool("hold"),
 		}
 		RandomSchedule(x, pf)
 	}
